@@ -61,6 +61,7 @@ type Summary struct {
 	Probes       map[string]int   `json:"probes"`
 	Strategies   map[string]int   `json:"strategies"`
 	KnownHits    map[string]int   `json:"known_hits"`
+	KnobOnly     map[string]int   `json:"knob_only"`
 	Distinct     []uint64         `json:"distinct"`
 	SchedSigs    []uint64         `json:"sched_sigs"`
 	Samples      []map[string]any `json:"samples"`
@@ -402,7 +403,7 @@ func runCheck(spec *PropSpec, tier string) int {
 	}
 	wg.Wait()
 
-	agg := Summary{Inconclusive: map[string]int{}, Faults: map[string]int{}, Probes: map[string]int{}, Strategies: map[string]int{}, KnownHits: map[string]int{}}
+	agg := Summary{Inconclusive: map[string]int{}, Faults: map[string]int{}, Probes: map[string]int{}, Strategies: map[string]int{}, KnownHits: map[string]int{}, KnobOnly: map[string]int{}}
 	distinct := map[uint64]bool{}
 	sigs := map[uint64]bool{}
 	var harnessProblems []string
@@ -434,6 +435,9 @@ func runCheck(spec *PropSpec, tier string) int {
 		}
 		for k, v := range s.KnownHits {
 			agg.KnownHits[k] += v
+		}
+		for k, v := range s.KnobOnly {
+			agg.KnobOnly[k] += v
 		}
 		for _, h := range s.Distinct {
 			distinct[h] = true
@@ -547,6 +551,7 @@ func runCheck(spec *PropSpec, tier string) int {
 			"strategies":                   agg.Strategies,
 			"inconclusive":                 agg.Inconclusive,
 			"known_finding_hits":           agg.KnownHits,
+			"knob_only":                    agg.KnobOnly,
 			"instrumentation":              report,
 			"components":                   map[string]any{"real": spec.Real, "stub": spec.Stub},
 			"build_s":                      buildS,
